@@ -4,6 +4,7 @@ import (
 	"fmt"
 	"go/token"
 	"go/types"
+	"strings"
 
 	"golang.org/x/tools/go/ssa"
 )
@@ -14,9 +15,9 @@ func (e *Engine) exec(c *Config, f *Frame, ins ssa.Instruction, rest func(c *Con
 	case *ssa.DebugRef:
 		f.idx++
 	case *ssa.Alloc:
+		// every dynamic allocation has its own name (site + iteration vector), so the object is zero
+		// when first reached on any path
 		cell := e.allocCell(c, x.Type().(*types.Pointer).Elem(), "alloc")
-		// a fresh allocation is zero: re-zero under guard when the same site is re-executed on this path
-		storeCell(cell, zeroValue(cell.T), c.g)
 		f.regs[x] = refTo(cell)
 		f.idx++
 	case *ssa.Store:
@@ -102,15 +103,10 @@ func (e *Engine) exec(c *Config, f *Frame, ins ssa.Instruction, rest func(c *Con
 		}
 		e.raise(c, Or(Slt(ln, BV(0, 64)), Slt(cp, ln)), "makeslice: len out of range")
 		arr := e.allocArray(c, x.Type().Underlying().(*types.Slice).Elem(), n, "makeslice")
-		storeCell(arr, zeroValue(arr.T), c.g)
 		f.regs[x] = &SliceV{Base: refTo(arr), Off: BV(0, 64), Len: ln, Cap: cp}
 		f.idx++
 	case *ssa.MakeMap:
 		m := e.allocMap(c, x.Type().Underlying().(*types.Map))
-		// fresh map: clear entries under guard
-		for _, en := range m.Entries {
-			en.Present = And(en.Present, Not(c.g))
-		}
 		f.regs[x] = refTo(m)
 		f.idx++
 	case *ssa.MakeChan:
@@ -264,8 +260,37 @@ func (e *Engine) doReturnFrom(c *Config, res Value) {
 // concretizeReg forks c so that the reference held by v has a single alternative in each resulting
 // config (queued at the same instruction). Returns (ref, true) when it already is single.
 func (e *Engine) concretizeReg(c *Config, f *Frame, v ssa.Value) (*RefV, bool) {
-	r := pruneRefUnder(e.get(f, v).(*RefV), c.g)
+	orig := e.get(f, v).(*RefV)
+	r := pruneRefUnder(orig, c.g)
 	if len(r.Alts) == 1 {
+		if len(orig.Alts) != 1 || !orig.Alts[0].G.IsTrue() {
+			// normalise: keep only the live alternative in the register, so that later guard changes
+			// (merging, resting) cannot resurrect a dead one
+			one := &RefV{Alts: []RefAlt{{TS.True, r.Alts[0].R}}}
+			switch vv := v.(type) {
+			case *ssa.FreeVar:
+				nb := append([]Value(nil), f.bindings...)
+				for i, x := range f.fn.FreeVars {
+					if x == vv {
+						nb[i] = one
+					}
+				}
+				f.bindings = nb
+			case *ssa.Const, *ssa.Global, *ssa.Function:
+			default:
+				f.regs[v] = one
+			}
+			tag := refIdent(r.Alts[0].R) + ";"
+
+			if !(f.opTagBlk == f.blk.Index && f.opTagIdx == f.idx && strings.Contains(f.opTag, tag)) {
+				if !(f.opTagBlk == f.blk.Index && f.opTagIdx == f.idx) {
+					f.opTag = ""
+				}
+				f.opTag += tag
+				f.opTagBlk, f.opTagIdx = f.blk.Index, f.idx
+			}
+			return one, true
+		}
 		return r, true
 	}
 	if len(r.Alts) == 0 {
@@ -277,10 +302,11 @@ func (e *Engine) concretizeReg(c *Config, f *Frame, v ssa.Value) (*RefV, bool) {
 		n.g = And(c.g, a.G)
 		one := &RefV{Alts: []RefAlt{{TS.True, a.R}}}
 		nf := n.top()
-		nf.opTag += fmt.Sprintf("%p;", a.R)
-		if _, isNil := a.R.(NilRef); isNil {
-			nf.opTag += "nil;"
+		if !(nf.opTagBlk == nf.blk.Index && nf.opTagIdx == nf.idx) {
+			nf.opTag = ""
 		}
+		nf.opTag += refIdent(a.R) + ";"
+
 		nf.opTagBlk, nf.opTagIdx = nf.blk.Index, nf.idx
 		if fv, ok := v.(*ssa.FreeVar); ok {
 			nb := append([]Value(nil), nf.bindings...)
